@@ -28,7 +28,7 @@ structure D where
 
 def pcName : Pc Int Unit → String
   | .absent => "absent" | .top => "top" | .peeked r => s!"peeked({r.id})" | .polled r => s!"polled({r.id})"
-  | .armed r => s!"armed({r.id})" | .firing r => s!"firing({r.id})" | .popped r => s!"popped({r.id})"
+  | .arming r => s!"arming({r.id})" | .armed r => s!"armed({r.id})" | .firing r => s!"firing({r.id})" | .popped r => s!"popped({r.id})"
   | .running r => s!"running({r.id})" | .exiting => "exiting"
 
 def tokName : Token → String
@@ -39,7 +39,7 @@ def cpcName : ClosePc → String
 
 def showSt (s : St) : String :=
   let q := ",".intercalate (s.q.map fun r => s!"{r.id}:k{r.key}@{r.time}")
-  s!"[q={q} tok={tokName s.token} reset={s.reset} stopped={s.stopped} stopClosed={s.stopClosed} pc={pcName s.pc} cpc={cpcName s.cpc} now={s.now} next={s.nextId}]"
+  s!"[q={q} tok={tokName s.token} reset={s.reset} stopped={s.stopped} stopClosed={s.stopClosed} pc={pcName s.pc} cpc={cpcName s.cpc} now={s.now} timer={s.timer} next={s.nextId}]"
 
 def showSet (ss : List St) : String := " ".intercalate ((ss.take 6).map showSt)
 
@@ -59,6 +59,7 @@ def parseObs (l : Line) : Option (Obs Int Unit) :=
     let k ← l.int? "key"; let f ← l.nat? "first"; let out ← (l.get? "out").bind parseOut
     return .deq k (f == 1) out
   | "adv" => do let t ← l.int? "to"; return .adv t
+  | "newtimer" => do let d ← l.int? "dur"; let c ← l.int? "created"; return .newtimer d c
   | "peeked" => some (.peeked (l.nat? "id"))
   | "popped" => do let id ← l.nat? "id"; return .popped id
   | "stale" => do let id ← l.nat? "id"; return .stale id
